@@ -29,6 +29,23 @@ Proof.
 Qed.
 Print Assumptions C12_injection_is_documented.
 
+(* the forcing arrays of the source: the constructors of VorticityConvection2dKolmogorov / ProjectedConvection3dKolmogorov are executed
+   symbolically on every run (harness/translate/spectral.py -> gen_injection2d / gen_injection3d in Gen/SpectralGen.v, with the derivative
+   operator build_derivative_operator(D, L, N) that BaseStepper hands to _build_nonlinear_fun, callees inlined) and ARE the model's arrays at the
+   signed wavenumber vector of every stored index - every N, forcing mode, scale and extent; (re, im) against any imaginary unit ii.
+   With C12_injection_is_documented the SOURCE injects exactly the documented field. *)
+From EXV Require Import Gen.SpectralGen Tie.InjectionTie.
+Theorem C12_code_injection_is_model_injection : forall (F : FieldT) (pi ii L gamma : F) (N kinj : Z) (ch : nat) (idx : list Z),
+  gen_injection2d F pi L gamma N kinj idx = injection2d F (fz 2 * pi / L) gamma N kinj (wnvec 2 N idx)
+  /\ injection3d F ii gamma N kinj ch (wnvec 3 N idx)
+     = fst (gen_injection3d F L gamma N kinj ch idx) + ii * snd (gen_injection3d F L gamma N kinj ch idx).
+Proof.
+  intros F pi ii L gamma N kinj ch idx. split.
+  - apply injection2d_tie.
+  - apply injection3d_tie.
+Qed.
+Print Assumptions C12_code_injection_is_model_injection.
+
 (* the transform of a real harmonic c e^{i theta} + c' e^{-i theta} puts n*c on mode m and n*c' on mode n-m
    (cos: c = c' = a/2; sin: c = a/(2i) = -i a/2, c' = +i a/2) -- the link between the arrays above and the documented fields *)
 Theorem C12_transform_of_a_harmonic : forall (F : FieldT) (n : nat) (w w' : F),
